@@ -274,7 +274,10 @@ Http::One::RequestParser::parseRequestFirstLine()
     // Now, the request line has to end at the first LF.
     static const CharacterSet lineChars = CharacterSet::LF.complement("notLF");
     Tokenizer lineTok(buf_);
-    if (!lineTok.prefix(line, lineChars) || !lineTok.skip('\n')) {
+    // A line of maxRequestHeaderSize or more bytes is too long even when its LF
+    // has already been received (the outcome must not depend on read sizes).
+    if (!lineTok.prefix(line, lineChars) || !lineTok.skip('\n') ||
+            line.length() >= Config.maxRequestHeaderSize) {
         if (buf_.length() >= Config.maxRequestHeaderSize) {
             /* who should we blame for our failure to parse this line? */
 
